@@ -228,3 +228,12 @@ Theorem C17_frame_len_refuted :
               len raw = 12 /\ frame_len_of unused_pointer_frame = 14.
 Proof. exact frame_len_unused_pointer_refuted. Qed.
 Print Assumptions C17_frame_len_refuted.
+
+(* every strict prefix of a packed frame is refused with UslpInvalidRawPacketOrFrameLen
+   (before the repair 14f7d91 variable-length frames accepted prefixes that cut the OCF/FECF) *)
+Theorem C17_frame_prefix_rejected : forall f p n, frame_consistent f -> frame_len_set f ->
+  props_match f p -> (n < length (frame_layout (hdr_layout (hdr f)) f))%nat ->
+  frame_unpack (firstn n (frame_layout (hdr_layout (hdr f)) f)) (ftype_of_rule (rules (ftfdf f))) p =
+  Err EInvalidLen.
+Proof. exact frame_prefix_rejected. Qed.
+Print Assumptions C17_frame_prefix_rejected.
